@@ -205,11 +205,11 @@ func (s *Service) Open() error {
 func (s *Service) Close() error {
 	s.Logger.Info("Shutting down hinted handoff service")
 	s.mu.Lock()
-	defer s.mu.Unlock()
 
 	for _, processors := range s.processors {
 		for _, p := range processors {
 			if err := p.Close(); err != nil {
+				s.mu.Unlock()
 				return err
 			}
 		}
@@ -219,11 +219,25 @@ func (s *Service) Close() error {
 		s.Monitor.DeregisterDiagnosticsClient("hh")
 	}
 
-	if s.closing != nil {
-		close(s.closing)
+	closing := s.closing
+	if closing != nil {
+		select {
+		case <-closing:
+		default:
+			close(closing)
+		}
 	}
+	s.mu.Unlock()
+
+	// The purge goroutine takes s.mu on every tick and only looks at the closing
+	// channel between ticks: wait for it without holding the lock.
 	s.wg.Wait()
-	s.closing = nil
+
+	s.mu.Lock()
+	if s.closing == closing {
+		s.closing = nil
+	}
+	s.mu.Unlock()
 
 	return nil
 }
